@@ -113,6 +113,16 @@ fn main() {
             fs::create_dir_all(&scratch).unwrap();
             let mut out = seq::Out { w: std::io::BufWriter::new(fs::File::create(&outp).unwrap()), lines: 0 };
             vecs::set_marker_path(PathBuf::from(format!("{outp}.cur")));
+            // a panic raised INSIDE the library (its location is a source file of the crate under test, not of this harness)
+            // outside a catch_unwind ends the process: the driver must be able to tell it from a defect of the harness
+            let pfile = format!("{outp}.panic");
+            let prev = std::panic::take_hook();
+            std::panic::set_hook(Box::new(move |info| {
+                if let Some(l) = info.location() {
+                    let _ = fs::write(&pfile, serde_json::json!({"file": l.file(), "line": l.line(), "msg": info.to_string()}).to_string());
+                }
+                prev(info);
+            }));
             match what.as_str() {
                 "range" => vecs::run_range(&scratch, &mut out, &tier, seed),
                 "blob" => vecs::run_blob(&scratch, &mut out, &tier, seed),
